@@ -22,11 +22,13 @@ GATE_MOD = 'cirbo.core.circuit.gate'
 
 
 class Model:
-    def __init__(self, repo: Repo, den: Denotations):
+    def __init__(self, repo: Repo, den: Denotations, real_gates=False):
         self.repo = repo
+        self.real_gates = real_gates
         self.den = den
         ov = gate_overrides(den)
-        ov[f'{GATE_MOD}.Gate'] = FakeGate
+        if not real_gates:
+            ov[f'{GATE_MOD}.Gate'] = FakeGate
         self.types = {t.var: t for t in ov.values() if isinstance(t, GateTypeVal)}
         self.interp = Interp(repo, overrides=ov, max_steps=200_000)
         self.mod = repo.mod(CIRCUIT)
@@ -42,7 +44,7 @@ class Model:
             if need not in d:
                 raise AnalysisError(f'Circuit.__init__ does not create field {need} (representation changed)')
         for label, tname, operands in spec:
-            d['_gates'][label] = FakeGate(label, self.types[tname], tuple(operands))
+            d['_gates'][label] = self.gate(label, tname, operands)
             if tname == 'INPUT':
                 d['_inputs'].append(label)
             for o in operands:
@@ -63,6 +65,9 @@ class Model:
             return None, f'raise:{e.exc_name}'
 
     def gate(self, label, tname, operands=()):
+        if self.real_gates:
+            gm = self.repo.mod(GATE_MOD)
+            return self.interp.instantiate(RepoClass(gm, gm.cls('Gate')), (label, self.types[tname], tuple(operands)))
         return FakeGate(label, self.types[tname], tuple(operands))
 
 
